@@ -1,7 +1,7 @@
 //! Decodes ONE input with ONE entry point on the default main-thread stack, then runs the follow-ups.
 //! usage: child <type> <registry|-> <api> <file>      exit 0 + one line "accepted" | "rejected" | "bad <what>"
 //! A panic exits 101; a stack overflow is a SIGABRT / SIGSEGV of this process -- both are data for the parent.
-use coset_verif_harness::gen::decode_and_follow;
+use coset_verif_harness::gen::{decode_and_follow, lean_decode_and_follow};
 
 fn main() {
     let a: Vec<String> = std::env::args().collect();
@@ -12,6 +12,14 @@ fn main() {
     let bytes = std::fs::read(&a[4]).expect("read input");
     let reg = if a[2] == "-" { "" } else { a[2].as_str() };
     // no catch_unwind, default panic hook: the exit status tells the story
+    // lean path: no projection, so the time and stack measured are the crate's own
+    if let Some((acc, bad)) = lean_decode_and_follow(&a[1], reg, &a[3], &bytes) {
+        match bad {
+            None => println!("{}", if acc { "accepted" } else { "rejected" }),
+            Some(w) => println!("bad {}", w),
+        }
+        return;
+    }
     let o = decode_and_follow(&a[1], reg, &a[3], &bytes);
     match o.bad {
         None => println!("{}", if o.accepted { "accepted" } else { "rejected" }),
